@@ -776,10 +776,18 @@ func (r *Raft) submitReadOnlyOperation(
 		return operationFuture
 	}
 
+	// The commit index of a leader that has not yet committed an entry in its term may lag behind
+	// operations that were acknowledged by a previous leader. All of those are in the log of this
+	// leader, so its last log index is a safe read index until its first entry is committed.
+	readIndex := r.commitIndex
+	if !r.committedThisTerm() {
+		readIndex = r.log.LastIndex()
+	}
+
 	operation := &Operation{
 		Bytes:         operationBytes,
 		OperationType: readOnlyType,
-		readIndex:     r.commitIndex,
+		readIndex:     readIndex,
 	}
 	r.operationManager.pendingReadOnly[operation] = operationFuture.responseCh
 
